@@ -784,15 +784,20 @@ static int confirm_stuck(char *buf, size_t len)
 {
 	char ph[56];
 	int sleeping = 0;
+	struct rq_snap rq0;
 	memcpy(ph, G.shp->phase, sizeof(ph));
 	ph[sizeof(ph) - 1] = 0;
+	rq_snapshot(getpid(), &rq0);
 	for (int i = 0; i < 3; i++) {
 		sleeping += thread_sleeping(getpid(), g_forker_tid);
-		usleep(300000);
+		usleep(400000);
 	}
-	snprintf(buf, len, "hang:fork:parent:%s", ph);
-	fprintf(stderr, "forkh: no progress in phase %s; forking thread blocked at %d/3 samples\n", ph, sleeping);
-	return sleeping == 3;
+	int starved = rq_starved_permille(getpid(), &rq0);
+	/* phase is "<role>:<step>", role = as-parent (before the fork) / parent (after it) */
+	snprintf(buf, len, "hang:fork:%s", ph);
+	fprintf(stderr, "forkh: no progress in phase %s; forking thread blocked at %d/3 samples; max CPU starvation %d per mille\n", ph,
+		sleeping, starved);
+	return sleeping == 3 && starved < 250;
 }
 
 static long g_scenarios;
@@ -841,6 +846,7 @@ int main(int argc, char **argv)
 	}
 #endif
 	vp_user_hook = user_hook;
+	rq_exclude = app_is_tid;
 	snprintf(g_root_shp.phase, sizeof(g_root_shp.phase), "init");
 	vp_watchdog_start((uint64_t) vp_arg_long("stall-ms", 21000), confirm_stuck);
 	if (forker_thread) {
@@ -856,5 +862,8 @@ int main(int argc, char **argv)
 	vp_counter_add("forker_is_thread", (uint64_t) forker_thread);
 	vp_counter_add("stale_resize_initiated_flag", __atomic_load_n(&g_stale_flag_seen, __ATOMIC_RELAXED));
 	vp_note("TSan variant not built for this harness: no runtime threads in the child of a multi-threaded fork");
-	return vp_finish();
+	int rc = vp_finish();
+	if (rc)
+		_exit(rc);	/* library state may be wedged: its destructors (flush of the resize work queue, helper teardown) could block forever */
+	return rc;
 }
